@@ -14,6 +14,16 @@ import (
 // parse error at the offending token.
 type numParseError string
 
+// nextArrayDim returns dim+1, the depth of a type with one more pair of
+// brackets.  The depth is kept in 16 bits (TypeId.ArrayDim, TypeId.MapDim);
+// a type nested deeper than that is a parse error rather than a wrap-around.
+func nextArrayDim(dim int16) int16 {
+	if dim >= math.MaxInt16-1 {
+		panic(numParseError("too many array dimensions"))
+	}
+	return dim + 1
+}
+
 // parseInt parses bytes as a 64-bit signed decimal integer.
 //
 // Reimplementing this method avoids the overhead of copying the byte array to
